@@ -341,7 +341,7 @@ pub fn run(ctx: &Ctx) {
             let frame = vcore::enc::df17(5, 0x4840d6, &vcore::enc::me_ident(4, 0, &[1, 2, 3, 4, 48, 49, 50, 32]));
             for (via_config, long_table, what) in [(false, false, "string form"), (true, false, "short table form"), (true, true, "long table form")] {
                 ctx.eval();
-                let sc = crate::e2e::Scenario { references: vec![Some((43.6, 1.45)), None], sends: vec![crate::e2e::Send { source: 0, frame: frame.clone(), pause_ms: 2, cut: 0 }, crate::e2e::Send { source: 1, frame: frame.clone(), pause_ms: 0, cut: 0 }], dedup_ms: 40, via_config, long_table, ..Default::default() };
+                let sc = crate::e2e::Scenario { references: vec![if long_table { Some((0.0, -78.45)) } else { Some((51.4779, 0.0)) }, None], sends: vec![crate::e2e::Send { source: 0, frame: frame.clone(), pause_ms: 2, cut: 0, clock_offset_s: None }, crate::e2e::Send { source: 1, frame: frame.clone(), pause_ms: 0, cut: 0, clock_offset_s: None }], dedup_ms: 40, via_config, long_table, ..Default::default() };
                 serial_e2e(ctx, &env, &sc, what);
             }
         }
@@ -375,6 +375,15 @@ pub fn serial_e2e(ctx: &Ctx, env: &crate::e2e::Env, sc: &crate::e2e::Scenario, w
                             got.insert(x);
                         }
                     }
+                }
+            }
+            // what the application registered for each source (served by /sensors): the serial and the position given
+            for (i, (p, r)) in out.ports.iter().zip(sc.references.iter()).enumerate() {
+                let e = out.sensors.get(want[i].to_string());
+                let got_ref = e.and_then(|e| Some((e["reference"]["latitude"].as_f64()?, e["reference"]["longitude"].as_f64()?)));
+                if e.is_none() || got_ref != *r {
+                    ctx.judge(Err(Failure::new("c16:e2e:registered-reference-differs", format!("source tcp://127.0.0.1:{p} given in the {what} with reference {r:?}: /sensors shows {}", e.cloned().unwrap_or(Value::Null)), rep)));
+                    return;
                 }
             }
             let want_set: std::collections::BTreeSet<u64> = want.iter().copied().collect();
